@@ -25,6 +25,8 @@ func init() {
 			"allocator as values; float64 rounding of 2^n for n < 62 (exact).",
 		Run: runC11,
 		Mutants: []Mutant{
+			{Name: "bulk-correction-by-host-bits", File: "internal/allocator/allocator.go",
+				Old: "\t\t\tif o <= 24 {", New: "\t\t\tif b-o >= 8 {", Expect: "BUGGY-COUNT"},
 			{Name: "failed-write-releases-the-reservation", File: "controller/main.go",
 				Old: "if err := c.client.UpdateStatus(svc); err != nil {",
 				New: "if err := c.client.UpdateStatus(svc); err != nil {\n\t\t\tc.ips.Unassign(name)", Expect: "HANDLER-ERR"},
@@ -610,6 +612,27 @@ func c11Numeric(p *chk.Prog, r *chk.Report) {
 			}
 		}
 		x.Check("saturatingAdd:guarded-sum", sa.Pos(), ok && n == 1, "", "saturatingAdd can compute a + b when the sum exceeds MaxInt64")
+	}
+	if f != nil {
+		// the whole-/24 correction (two unusable addresses per /24 contained) is an IPv4 notion: it is applied only to a
+		// prefix of at most 24 ones - which no IPv6 range that gets here has (62 or more host bits were handled above).
+		// A test on the number of host bits instead admits IPv6 /67../120 ranges, whose addresses the allocator hands out
+		// without any such exclusion: the capacity reported is smaller than what can be assigned
+		g := f.Graph()
+		bc := r.Rule("BUGGY-COUNT", "B path (numeric guard)", "in allocator.poolCount a subtraction of more than one from the size of a range (`sz -= n`) is dominated by `ones <= 24` for the ones of that range's mask", 1)
+		ones := definedByIdx(g, f, "C.Mask.Size()", 0)
+		nSub := 0
+		for _, s := range g.Find(func(n ast.Node) bool {
+			as, ok := n.(*ast.AssignStmt)
+			return ok && as.Tok == token.SUB_ASSIGN && len(as.Lhs) == 1
+		}) {
+			nSub++
+			is24 := func(e ast.Expr) bool { return f.IsConstInt(e, 24) }
+			is25 := func(e ast.Expr) bool { return f.IsConstInt(e, 25) }
+			ok := g.Dominated(s, chk.GCompare(true, token.LEQ, ones, is24)) || g.Dominated(s, chk.GCompare(true, token.LSS, ones, is25))
+			bc.Check("poolCount:bulk-correction-only-up-to-24-ones", s.Pos(), ok, "", "the per-/24 correction of the range size is applied without `ones <= 24`: ranges that are not IPv4 prefixes of at most 24 bits (IPv6 ranges with 8 to 61 host bits) are counted short of what the allocator assigns from them")
+		}
+		bc.Check("poolCount:bulk-correction-site", f.Pos(), nSub >= 1, "", "no bulk correction found")
 	}
 	y := r.Rule("NONNEG-1", "F numeric typestate", "in allocator.poolCount the size counter sz (2^(b-o) >= 1) is decremented by one at most once without a guard; a further `sz--` on the same path is dominated by sz > 0 (path-sensitive count of decrements)", 1)
 	if f != nil {
